@@ -792,6 +792,17 @@ def oracle_stream(ctx):
         n, m = r.randint(1, hi), r.randint(1, hi)
         _, A = gen_graph(r, n)
         iso = r.random() < 0.15
+        if r.random() < 0.3:
+            # long thin graph against a tree / star-like graph of 5-6 vertices: different diameters, curvature taken from
+            # the smaller-diameter graph (the distance distributions are sized by the LARGER diameter)
+            n, m = r.choice([5, 6]), r.choice([5, 6])
+            _, A = gen_graph(r, n, r.choice(["path", "tree", "lolli"]))
+            iso = False
+            _, B0 = gen_graph(r, m, r.choice(["tree", "tree", "star", "gnp"]))
+            cases.append((A, relabel(r, B0), False, r.choice(ORDERS), r.randrange(2 ** 31)))
+            lines.append("mgh.spec %s %s" % (enc(L(metric(A))), enc(L(metric(cases[-1][1])))))
+            ctx.count("oracle:different_diameter_class")
+            continue
         if iso:
             B = relabel(r, A)
         else:
